@@ -47,7 +47,7 @@ void harness(void)
             __CPROVER_assert(e == CO_ERR_NONE && *(uint32_t *)V_CELL == H_NEW32 && SY.CobId == H_NEW32, "setting bit 30 with a resolvable period is accepted");
             __CPROVER_assert((H_CYCLE / 100 > 0) ==> (N_TCRE == 1 && C_START == H_TICKS && TICKS_ARGS(H_CYCLE / 100, 10000) && C_CYCLE == C_START && C_FUNC == COSyncProdSend && C_PARA == &SY && SY.Tmr == H_TID), "production starts at once: cyclic action with the period of 1006h converted to ticks (not narrowed)");
         } else {
-            __CPROVER_assert(e == CO_ERR_OBJ_RANGE && *(uint32_t *)V_CELL == old32 && SY.CobId == cob0 && N_TCRE == 0, "a period the timer cannot resolve: refused, previous value kept");
+            __CPROVER_assert(e == CO_ERR_OBJ_RANGE && *(uint32_t *)V_CELL == old32 && SY.CobId == cob0 && N_TCRE == 0 && N_TDEL == 0 && SY.Tmr == t0, "a period the timer cannot resolve: refused, previous value kept, nothing else changes");
         }
     } else if (!PRODUCING(old32) && !PRODUCING(H_NEW32)) {
         __CPROVER_assert(e == CO_ERR_NONE && *(uint32_t *)V_CELL == H_NEW32 && SY.CobId == H_NEW32 && N_TCRE + N_TDEL == 0, "consumer identifier change takes effect at once");
@@ -68,7 +68,7 @@ void harness(void)
         __CPROVER_assert((t0 >= 0) ==> (N_TDEL == 1 && D_ID == t0), "re-timing deletes the running action first");
         __CPROVER_assert((H_NEW32 / 100 > 0) ==> (N_TCRE == 1 && C_START == H_TICKS && TICKS_ARGS(H_NEW32 / 100, 10000) && C_CYCLE == C_START && SY.Tmr == H_TID), "production is re-timed at once with the new period");
     } else {
-        __CPROVER_assert(e == CO_ERR_OBJ_RANGE && *(uint32_t *)V_CELL == old32 && N_TCRE == 0, "unresolvable period refused, previous value kept");
+        __CPROVER_assert(e == CO_ERR_OBJ_RANGE && *(uint32_t *)V_CELL == old32 && N_TCRE == 0 && N_TDEL == 0 && SY.Tmr == t0, "unresolvable period refused, previous value kept, the running production is not disturbed");
     }
     if (N_TCRE == 1 && N_TDEL == 1) { __CPROVER_assert(0, "REACH:a"); }
     if (e == CO_ERR_OBJ_RANGE) { __CPROVER_assert(0, "REACH:b"); }
